@@ -248,5 +248,736 @@ theorem restore (m : Cfg α κ ν) (hk : KeyDetermines m) (hr : ReadsOnlyInvalid
   show some (m.f (optsAfter Opts.init ops₁) a) = some (m.f (optsAfter Opts.init ops₂) a)
   rw [h]
 
+/-! ### the code as pinned: outside the region -/
+
+/-- Every entry was stored by a call recorded in `past`. -/
+def Traced (m : Cfg α κ ν) (past : List (Opts × α)) (c : Cache κ ν) : Prop :=
+  ∀ e ∈ c, ∃ p ∈ past, m.key p.2 = e.1 ∧ m.f p.1 p.2 = .ok e.2
+
+def Consistent (m : Cfg α κ ν) (t : List (Opts × α)) : Prop :=
+  ∀ p ∈ t, ∀ q ∈ t, m.key p.2 = m.key q.2 → m.f p.1 p.2 = m.f q.1 q.2
+
+theorem consistent_of_region [DecidableEq ν] (m : Cfg α κ ν) (o : Opts) (ops : List (Op α))
+    (h : reuse_after_option_change m o ops = false) : Consistent m (callTrace o ops) := by
+  intro p hp q hq hk
+  unfold reuse_after_option_change at h
+  by_contra hne
+  have : ((callTrace o ops).any fun p => (callTrace o ops).any fun q =>
+      decide (m.key p.2 = m.key q.2) && !decide (m.f p.1 p.2 = m.f q.1 q.2)) = true := by
+    rw [List.any_eq_true]
+    refine ⟨p, hp, ?_⟩
+    rw [List.any_eq_true]
+    refine ⟨q, hq, ?_⟩
+    simp [hk, hne]
+  rw [this] at h
+  cases h
+
+theorem run_traced (m : Cfg α κ ν) (ops : List (Op α)) :
+    ∀ (s : St κ ν) (past : List (Opts × α)), Traced m past s.cache →
+      Consistent m (past ++ callTrace s.opts ops) → (run m s ops).2 = pureRun m.f s.opts ops := by
+  induction ops with
+  | nil => intro s past _ _; rfl
+  | cons op ops ih =>
+    intro s past ht hc
+    cases op with
+    | call a =>
+      have hc' : Consistent m ((past ++ [(s.opts, a)]) ++ callTrace s.opts ops) := by
+        rw [List.append_assoc]; exact hc
+      have hres : (step m s (.call a)).2 = some (m.f s.opts a) := by
+        simp only [step]
+        rcases cachedCall_result m.cap s.cache (m.key a) (m.f s.opts a) with h | ⟨v, hm, h⟩
+        · rw [h]
+        · rw [h]
+          obtain ⟨p, hp, hpk, hpv⟩ := ht _ hm
+          have := hc p (List.mem_append_left _ hp) (s.opts, a)
+            (List.mem_append_right _ (by simp [callTrace])) hpk
+          rw [← this, hpv]
+      have htr : Traced m (past ++ [(s.opts, a)]) (step m s (.call a)).1.cache := by
+        intro e he
+        rcases cachedCall_mem he with he | ⟨v, hv, rfl⟩
+        · obtain ⟨p, hp, h1, h2⟩ := ht e he
+          exact ⟨p, List.mem_append_left _ hp, h1, h2⟩
+        · exact ⟨(s.opts, a), by simp, rfl, hv⟩
+      simp only [run, pureRun]
+      rw [hres]
+      have := ih (step m s (.call a)).1 (past ++ [(s.opts, a)]) htr hc'
+      rw [this]
+      rfl
+    | setOpt n v =>
+      have htr : Traced m past (step m s (.setOpt n v)).1.cache := by
+        simp only [step]
+        split
+        · intro e he; cases he
+        · exact ht
+      simp only [run, pureRun]
+      have := ih (step m s (.setOpt n v)).1 past htr hc
+      rw [this]
+      rfl
+    | clear =>
+      have htr : Traced m past (step m s .clear).1.cache := by intro e he; cases he
+      simp only [run, pureRun]
+      have := ih (step m s .clear).1 past htr hc
+      rw [this]
+      rfl
+
+theorem run_pure_partial [DecidableEq ν] (m : Cfg α κ ν) (_hk : KeyDetermines m) (o : Opts) (ops : List (Op α))
+    (h : reuse_after_option_change m o ops = false) :
+    (run m ⟨o, []⟩ ops).2 = pureRun m.f o ops :=
+  run_traced m ops ⟨o, []⟩ [] (by intro e he; cases he) (by simpa using consistent_of_region m o ops h)
+
+omit [DecidableEq κ] in
+theorem pureRun_append_call (f : Opts → α → Except Err ν) (ops : List (Op α)) (a : α) :
+    ∀ o, (pureRun f o (ops ++ [.call a])).getLast? = some (some (f (optsAfter o ops) a)) := by
+  induction ops with
+  | nil => intro o; rfl
+  | cons op ops ih =>
+    intro o
+    simp only [List.cons_append, pureRun]
+    rw [List.getLast?_cons_of_ne_nil]
+    · rw [ih]; rfl
+    · cases ops <;> simp [pureRun]
+
+theorem restore_partial [DecidableEq ν] (m : Cfg α κ ν) (hk : KeyDetermines m)
+    (ops₁ ops₂ : List (Op α)) (a : α)
+    (h₁ : reuse_after_option_change m Opts.init (ops₁ ++ [.call a]) = false)
+    (h₂ : reuse_after_option_change m Opts.init (ops₂ ++ [.call a]) = false)
+    (h : optsAfter Opts.init ops₁ = optsAfter Opts.init ops₂) :
+    (run m St.init (ops₁ ++ [.call a])).2.getLast? = (run m St.init (ops₂ ++ [.call a])).2.getLast? := by
+  have e1 := run_pure_partial m hk Opts.init _ h₁
+  have e2 := run_pure_partial m hk Opts.init _ h₂
+  show (run m ⟨Opts.init, []⟩ _).2.getLast? = (run m ⟨Opts.init, []⟩ _).2.getLast?
+  rw [e1, e2, pureRun_append_call, pureRun_append_call, h]
+
+theorem strCfg_roi (cap : Nat) : ReadsOnlyInvalidating (strCfg cap true) := by
+  intro n hn o v a
+  cases n with
+  | bytealigned => simp [strCfg, sem, Opts.set]
+  | lsb0 => simp [strCfg] at hn
+  | mxfp => simp [strCfg] at hn
+
 end machine
+
+/-! ## tables and bindings -/
+
+theorem tableFind_append (l₁ l₂ : Table) (k : String × String) :
+    tableFind (l₁ ++ l₂) k = match tableFind l₁ k with
+      | some x => some x
+      | none => tableFind l₂ k := by
+  induction l₁ with
+  | nil => rfl
+  | cons e t ih =>
+    obtain ⟨k', v⟩ := e
+    simp only [List.cons_append, tableFind]
+    split
+    · rfl
+    · exact ih
+
+theorem tableFind_isSome_iff (t : Table) (k : String × String) :
+    (tableFind t k).isSome = true ↔ k ∈ t.map (·.1) := by
+  induction t with
+  | nil => simp [tableFind]
+  | cons e t ih =>
+    obtain ⟨k', v⟩ := e
+    simp only [tableFind, List.map_cons, List.mem_cons]
+    split
+    · rename_i h; simp [h]
+    · rename_i h
+      rw [ih]
+      constructor
+      · exact Or.inr
+      · rintro (h' | h')
+        · exact absurd h'.symm h
+        · exact h'
+
+theorem tableLast_isSome_iff (t : Table) (k : String × String) :
+    (tableLast t k).isSome = true ↔ k ∈ t.map (·.1) := by
+  unfold tableLast
+  rw [tableFind_isSome_iff, List.map_reverse, List.mem_reverse]
+
+theorem keys_iff_of_subsets (t t' : Table) (h₁ : tableKeysSubset t t' = true) (h₂ : tableKeysSubset t' t = true) :
+    ∀ k, k ∈ t.map (·.1) ↔ k ∈ t'.map (·.1) := by
+  have key : ∀ (a b : Table), tableKeysSubset a b = true → ∀ k, k ∈ a.map (·.1) → k ∈ b.map (·.1) := by
+    intro a b h k hk
+    unfold tableKeysSubset at h
+    rw [List.all_eq_true] at h
+    obtain ⟨e, he, rfl⟩ := List.mem_map.1 hk
+    have := h e he
+    simpa using this
+  intro k
+  exact ⟨key t t' h₁ k, key t' t h₂ k⟩
+
+theorem sameKeys_of_keys_iff (cfg : SysCfg)
+    (h : ∀ k, k ∈ cfg.tblLsb0.map (·.1) ↔ k ∈ cfg.tblMsb0.map (·.1)) : SameKeys cfg := by
+  intro k
+  have h1 := tableLast_isSome_iff cfg.tblLsb0 k
+  have h2 := tableLast_isSome_iff cfg.tblMsb0 k
+  have := h k
+  cases ha : (tableLast cfg.tblLsb0 k).isSome <;> cases hb : (tableLast cfg.tblMsb0 k).isSome <;> simp_all
+
+theorem sameKeys_table (cfg : SysCfg) (hs : SameKeys cfg) (b b' : Bool) (k : String × String) :
+    (tableLast (cfg.table b) k).isSome = (tableLast (cfg.table b') k).isSome := by
+  cases b <;> cases b' <;> simp [SysCfg.table, hs k]
+
+/-- Applying the table of mode `v` to bindings that follow mode `b` gives bindings that follow mode `v`. -/
+theorem applyTable_follow (cfg : SysCfg) (hs : SameKeys cfg) (bd : Table) (b v : Bool)
+    (h : ∀ k, tableFind bd k = tableLast (cfg.table b) k) (k : String × String) :
+    tableFind (applyTable bd (cfg.table v)) k = tableLast (cfg.table v) k := by
+  unfold applyTable
+  rw [tableFind_append]
+  cases hl : tableFind (cfg.table v).reverse k with
+  | some x => simp [tableLast, hl]
+  | none =>
+    have h1 : (tableLast (cfg.table v) k).isSome = false := by simp [tableLast, hl]
+    have h2 := sameKeys_table cfg hs b v k
+    rw [h1] at h2
+    simp only []
+    rw [h k]
+    cases hb : tableLast (cfg.table b) k with
+    | none => simp [tableLast, hl]
+    | some y => rw [hb] at h2; cases h2
+
+/-! ## the eight-cache system -/
+
+theorem get_put_same (s : Sys) (cid : CacheId) (c : Cache Call Val) : (s.put cid c).get cid = c := by
+  cases cid <;> rfl
+
+theorem get_put_ne (s : Sys) (cid cid' : CacheId) (c : Cache Call Val) (h : cid ≠ cid') :
+    (s.put cid c).get cid' = s.get cid' := by
+  cases cid <;> cases cid' <;> first | rfl | exact absurd rfl h
+
+theorem put_opts (s : Sys) (cid : CacheId) (c : Cache Call Val) : (s.put cid c).opts = s.opts := by
+  cases cid <;> rfl
+
+theorem put_bindings (s : Sys) (cid : CacheId) (c : Cache Call Val) : (s.put cid c).bindings = s.bindings := by
+  cases cid <;> rfl
+
+theorem mem_allCaches (cid : CacheId) : cid ∈ allCaches := by
+  cases cid <;> simp [allCaches]
+
+def clearList (cfg : SysCfg) (n : OptName) (l : List CacheId) (s : Sys) : Sys :=
+  l.foldl (fun acc cid => if cfg.inval cid n then acc.put cid [] else acc) s
+
+theorem clearList_opts (cfg : SysCfg) (n : OptName) (l : List CacheId) :
+    ∀ s, (clearList cfg n l s).opts = s.opts ∧ (clearList cfg n l s).bindings = s.bindings := by
+  induction l with
+  | nil => intro s; exact ⟨rfl, rfl⟩
+  | cons c t ih =>
+    intro s
+    simp only [clearList, List.foldl_cons]
+    have := ih (if cfg.inval c n then s.put c [] else s)
+    simp only [clearList] at this
+    rw [this.1, this.2]
+    split
+    · exact ⟨put_opts _ _ _, put_bindings _ _ _⟩
+    · exact ⟨rfl, rfl⟩
+
+theorem clearList_get (cfg : SysCfg) (n : OptName) (l : List CacheId) (cid : CacheId) :
+    ∀ s, (clearList cfg n l s).get cid = [] ∨ (clearList cfg n l s).get cid = s.get cid := by
+  induction l with
+  | nil => intro s; exact Or.inr rfl
+  | cons c t ih =>
+    intro s
+    simp only [clearList, List.foldl_cons]
+    have := ih (if cfg.inval c n then s.put c [] else s)
+    simp only [clearList] at this
+    rcases this with h | h
+    · exact Or.inl h
+    · rw [h]
+      split
+      · by_cases hc : c = cid
+        · subst hc; exact Or.inl (get_put_same _ _ _)
+        · exact Or.inr (get_put_ne _ _ _ _ hc)
+      · exact Or.inr rfl
+
+theorem clearList_get_inval (cfg : SysCfg) (n : OptName) (l : List CacheId) (cid : CacheId)
+    (hm : cid ∈ l) (hi : cfg.inval cid n = true) : ∀ s, (clearList cfg n l s).get cid = [] := by
+  induction l with
+  | nil => cases hm
+  | cons c t ih =>
+    intro s
+    simp only [clearList, List.foldl_cons]
+    by_cases hc : c = cid
+    · subst hc
+      rw [hi]
+      simp only [if_true]
+      rcases clearList_get cfg n t c (s.put c []) with h | h
+      · exact h
+      · simp only [clearList] at h; rw [h]; exact get_put_same _ _ _
+    · have hm' : cid ∈ t := by
+        rcases List.mem_cons.1 hm with h | h
+        · exact absurd h.symm hc
+        · exact h
+      exact ih hm' _
+
+/-- The state after `options.<n> = v`. -/
+theorem sysStep_setOpt (cfg : SysCfg) (s : Sys) (n : OptName) (v : Bool) :
+    (sysStep cfg s (.setOpt n v)).2 = .none ∧
+    (sysStep cfg s (.setOpt n v)).1.opts = s.opts.set n v ∧
+    (sysStep cfg s (.setOpt n v)).1.bindings
+      = (match n with | .lsb0 => applyTable s.bindings (cfg.table v) | _ => s.bindings) ∧
+    (∀ cid, (sysStep cfg s (.setOpt n v)).1.get cid = [] ∨ (sysStep cfg s (.setOpt n v)).1.get cid = s.get cid) ∧
+    (∀ cid, cfg.inval cid n = true → (sysStep cfg s (.setOpt n v)).1.get cid = []) := by
+  cases n with
+  | lsb0 =>
+    let s2 : Sys := { s with opts := s.opts.set .lsb0 v, bindings := applyTable s.bindings (cfg.table v) }
+    have e : (sysStep cfg s (.setOpt .lsb0 v)).1 = clearList cfg .lsb0 allCaches s2 := rfl
+    refine ⟨rfl, ?_, ?_, ?_, ?_⟩
+    · rw [e, (clearList_opts cfg .lsb0 allCaches s2).1]
+    · rw [e, (clearList_opts cfg .lsb0 allCaches s2).2]
+    · intro cid; rw [e]; exact clearList_get cfg .lsb0 allCaches cid s2
+    · intro cid hi; rw [e]; exact clearList_get_inval cfg .lsb0 allCaches cid (mem_allCaches cid) hi s2
+  | bytealigned =>
+    let s2 : Sys := { s with opts := s.opts.set .bytealigned v }
+    have e : (sysStep cfg s (.setOpt .bytealigned v)).1 = clearList cfg .bytealigned allCaches s2 := rfl
+    refine ⟨rfl, ?_, ?_, ?_, ?_⟩
+    · rw [e, (clearList_opts cfg .bytealigned allCaches s2).1]
+    · rw [e, (clearList_opts cfg .bytealigned allCaches s2).2]
+    · intro cid; rw [e]; exact clearList_get cfg .bytealigned allCaches cid s2
+    · intro cid hi; rw [e]; exact clearList_get_inval cfg .bytealigned allCaches cid (mem_allCaches cid) hi s2
+  | mxfp =>
+    let s2 : Sys := { s with opts := s.opts.set .mxfp v }
+    have e : (sysStep cfg s (.setOpt .mxfp v)).1 = clearList cfg .mxfp allCaches s2 := rfl
+    refine ⟨rfl, ?_, ?_, ?_, ?_⟩
+    · rw [e, (clearList_opts cfg .mxfp allCaches s2).1]
+    · rw [e, (clearList_opts cfg .mxfp allCaches s2).2]
+    · intro cid; rw [e]; exact clearList_get cfg .mxfp allCaches cid s2
+    · intro cid hi; rw [e]; exact clearList_get_inval cfg .mxfp allCaches cid (mem_allCaches cid) hi s2
+
+/-- The state after a call of cache `cid`. -/
+theorem sysStep_call (cfg : SysCfg) (s : Sys) (cid : CacheId) (a : Call) :
+    (sysStep cfg s (.call cid a)).2
+      = .called cid s.opts a (cachedCall (cfg.cap cid) (s.get cid) a (sem cid s.opts a)).2 ∧
+    (sysStep cfg s (.call cid a)).1.opts = s.opts ∧
+    (sysStep cfg s (.call cid a)).1.bindings = s.bindings ∧
+    (sysStep cfg s (.call cid a)).1.get cid = (cachedCall (cfg.cap cid) (s.get cid) a (sem cid s.opts a)).1 ∧
+    (∀ cid', cid ≠ cid' → (sysStep cfg s (.call cid a)).1.get cid' = s.get cid') :=
+  ⟨rfl, put_opts _ _ _, put_bindings _ _ _, get_put_same _ _ _, fun cid' h => get_put_ne _ _ _ _ h⟩
+
+theorem sysRun_forall (cfg : SysCfg) (Inv : Sys → Prop) (P : SysOut → Prop)
+    (hstep : ∀ s op, Inv s → Inv (sysStep cfg s op).1 ∧ P (sysStep cfg s op).2) (ops : List SysOp) :
+    ∀ s, Inv s → Inv (sysRun cfg s ops).1 ∧ ∀ out ∈ (sysRun cfg s ops).2, P out := by
+  induction ops with
+  | nil => intro s h; exact ⟨h, by intro out ho; cases ho⟩
+  | cons op ops ih =>
+    intro s h
+    obtain ⟨h1, h2⟩ := hstep s op h
+    obtain ⟨h3, h4⟩ := ih _ h1
+    refine ⟨h3, ?_⟩
+    intro out ho
+    simp only [sysRun, List.mem_cons] at ho
+    rcases ho with rfl | ho
+    · exact h2
+    · exact h4 out ho
+
+/-! ### capacity -/
+
+theorem sysBounded_init (cfg : SysCfg) : SysBounded cfg (Sys.init cfg) := by
+  intro cid; cases cid <;> exact bounded_nil _
+
+theorem sysBounded_step (cfg : SysCfg) (s : Sys) (op : SysOp) (h : SysBounded cfg s) :
+    SysBounded cfg (sysStep cfg s op).1 := by
+  cases op with
+  | call cid a =>
+    obtain ⟨_, _, _, h4, h5⟩ := sysStep_call cfg s cid a
+    intro cid'
+    by_cases hc : cid = cid'
+    · subst hc; rw [h4]; exact cachedCall_bounded _ _ (h cid)
+    · rw [h5 cid' hc]; exact h cid'
+  | setOpt n v =>
+    obtain ⟨_, _, _, h4, _⟩ := sysStep_setOpt cfg s n v
+    intro cid
+    rcases h4 cid with e | e
+    · rw [e]; exact bounded_nil _
+    · rw [e]; exact h cid
+  | clear cid =>
+    intro cid'
+    by_cases hc : cid = cid'
+    · subst hc; show Bounded _ ((s.put cid []).get cid); rw [get_put_same]; exact bounded_nil _
+    · show Bounded _ ((s.put cid []).get cid'); rw [get_put_ne _ _ _ _ hc]; exact h cid'
+  | useMethod k => exact h
+  | other => exact h
+
+theorem sysBounded_run (cfg : SysCfg) (ops : List SysOp) (s : Sys) (h : SysBounded cfg s) :
+    SysBounded cfg (sysRun cfg s ops).1 :=
+  (sysRun_forall cfg (SysBounded cfg) (fun _ => True)
+    (fun s op hs => ⟨sysBounded_step cfg s op hs, trivial⟩) ops s h).1
+
+/-! ### the seven option-independent caches -/
+
+def SysComputed (s : Sys) : Prop := ∀ cid, ∀ e ∈ s.get cid, ∃ o, sem cid o e.1 = .ok e.2
+
+theorem sysComputed_init (cfg : SysCfg) : SysComputed (Sys.init cfg) := by
+  intro cid e he; cases cid <;> cases he
+
+theorem sem_other_indep (cid : CacheId) (hc : cid ≠ .strToBitstore) (o o' : Opts) (a : Call) :
+    sem cid o a = sem cid o' a := by
+  cases cid <;> first | exact absurd rfl hc | rfl
+
+theorem sysComputed_step (cfg : SysCfg) (s : Sys) (op : SysOp) (h : SysComputed s) :
+    SysComputed (sysStep cfg s op).1 := by
+  cases op with
+  | call cid a =>
+    obtain ⟨_, _, _, h4, h5⟩ := sysStep_call cfg s cid a
+    intro cid' e he
+    by_cases hc : cid = cid'
+    · subst hc
+      rw [h4] at he
+      rcases cachedCall_mem he with he | ⟨v, hv, rfl⟩
+      · exact h cid e he
+      · exact ⟨s.opts, hv⟩
+    · rw [h5 cid' hc] at he; exact h cid' e he
+  | setOpt n v =>
+    obtain ⟨_, _, _, h4, _⟩ := sysStep_setOpt cfg s n v
+    intro cid e he
+    rcases h4 cid with e' | e'
+    · rw [e'] at he; cases he
+    · rw [e'] at he; exact h cid e he
+  | clear cid =>
+    intro cid' e he
+    by_cases hc : cid = cid'
+    · subst hc
+      have : (sysStep cfg s (.clear cid)).1.get cid = [] := get_put_same _ _ _
+      rw [this] at he; cases he
+    · have : (sysStep cfg s (.clear cid)).1.get cid' = s.get cid' := get_put_ne _ _ _ _ hc
+      rw [this] at he; exact h cid' e he
+  | useMethod k => exact h
+  | other => exact h
+
+theorem sys_other_pure (cfg : SysCfg) (ops : List SysOp) (s : Sys) (hs : SysComputed s) (cid : CacheId) (o : Opts)
+    (a : Call) (r : Except Err Val) (hc : cid ≠ .strToBitstore)
+    (h : SysOut.called cid o a r ∈ (sysRun cfg s ops).2) : r = sem cid o a := by
+  have := (sysRun_forall cfg SysComputed
+    (fun out => ∀ cid o a r, out = SysOut.called cid o a r → cid ≠ .strToBitstore → r = sem cid o a)
+    (fun s op hs => ⟨sysComputed_step cfg s op hs, by
+      intro cid o a r he hc
+      cases op with
+      | call cid' a' =>
+        rw [(sysStep_call cfg s cid' a').1] at he
+        injection he with e1 e2 e3 e4
+        subst e1 e2 e3
+        rcases cachedCall_result (cfg.cap cid') (s.get cid') a' (sem cid' s.opts a') with h | ⟨v, hm, h⟩
+        · rw [← e4, h]
+        · rw [← e4, h]
+          obtain ⟨o', ho'⟩ := hs cid' _ hm
+          rw [sem_other_indep cid' hc s.opts o', ho']
+      | setOpt n v => rw [(sysStep_setOpt cfg s n v).1] at he; cases he
+      | clear c => cases he
+      | useMethod k => cases he
+      | other => cases he⟩) ops s hs).2 _ h
+  exact this cid o a r rfl hc
+
+/-! ### bindings -/
+
+def BindOK (cfg : SysCfg) (s : Sys) : Prop :=
+  ∀ k, tableFind s.bindings k = tableLast (cfg.table s.opts.lsb0) k
+
+theorem bindings_init (cfg : SysCfg) : BindOK cfg (Sys.init cfg) := by
+  intro k
+  show tableFind (applyTable [] cfg.tblMsb0) k = tableLast (cfg.table false) k
+  simp [applyTable, tableLast, SysCfg.table]
+
+theorem bindOK_step (cfg : SysCfg) (hs : SameKeys cfg) (s : Sys) (op : SysOp) (h : BindOK cfg s) :
+    BindOK cfg (sysStep cfg s op).1 := by
+  cases op with
+  | call cid a =>
+    obtain ⟨_, h2, h3, _, _⟩ := sysStep_call cfg s cid a
+    intro k; rw [h3, h2]; exact h k
+  | setOpt n v =>
+    obtain ⟨_, h2, h3, _, _⟩ := sysStep_setOpt cfg s n v
+    intro k
+    rw [h3, h2]
+    cases n with
+    | lsb0 => exact applyTable_follow cfg hs s.bindings s.opts.lsb0 v h k
+    | bytealigned => exact h k
+    | mxfp => exact h k
+  | clear cid =>
+    intro k
+    show tableFind (s.put cid []).bindings k = tableLast (cfg.table (s.put cid []).opts.lsb0) k
+    rw [put_bindings, put_opts]; exact h k
+  | useMethod k => exact h
+  | other => exact h
+
+theorem bindings_run (cfg : SysCfg) (hs : SameKeys cfg) (ops : List SysOp) (s : Sys) (h : BindOK cfg s) :
+    BindOK cfg (sysRun cfg s ops).1 :=
+  (sysRun_forall cfg (BindOK cfg) (fun _ => True)
+    (fun s op hb => ⟨bindOK_step cfg hs s op hb, trivial⟩) ops s h).1
+
+theorem sys_method_pure (cfg : SysCfg) (hs : SameKeys cfg) (ops : List SysOp) (s : Sys) (h : BindOK cfg s)
+    (bound : Option String) (o : Opts) (k : String × String)
+    (hm : SysOut.method bound o k ∈ (sysRun cfg s ops).2) : bound = tableLast (cfg.table o.lsb0) k := by
+  have := (sysRun_forall cfg (BindOK cfg)
+    (fun out => ∀ bound o k, out = SysOut.method bound o k → bound = tableLast (cfg.table o.lsb0) k)
+    (fun s op hb => ⟨bindOK_step cfg hs s op hb, by
+      intro bound o k he
+      cases op with
+      | call cid a => rw [(sysStep_call cfg s cid a).1] at he; cases he
+      | setOpt n v => rw [(sysStep_setOpt cfg s n v).1] at he; cases he
+      | clear c => cases he
+      | useMethod k' =>
+        injection he with e1 e2 e3
+        subst e1 e2 e3
+        exact hb k'
+      | other => cases he⟩) ops s h).2 _ hm
+  exact this bound o k rfl
+
+/-! ### the repaired shape: every observation pure -/
+
+def SysFresh (s : Sys) : Prop := ∀ cid, ∀ e ∈ s.get cid, sem cid s.opts e.1 = .ok e.2
+
+theorem sem_str_bytealigned (o : Opts) (v : Bool) (a : Call) :
+    sem .strToBitstore (o.set .bytealigned v) a = sem .strToBitstore o a := by
+  simp [sem, Opts.set]
+
+theorem called_pure_of_fresh (cfg : SysCfg) (s : Sys) (cid : CacheId) (a : Call)
+    (h : ∀ v, (a, v) ∈ s.get cid → sem cid s.opts a = .ok v) :
+    (SysOut.called cid s.opts a (cachedCall (cfg.cap cid) (s.get cid) a (sem cid s.opts a)).2).pure cfg = true := by
+  simp only [SysOut.pure, decide_eq_true_eq]
+  rcases cachedCall_result (cfg.cap cid) (s.get cid) a (sem cid s.opts a) with h' | ⟨v, hm, h'⟩
+  · exact h'
+  · rw [h', h v hm]
+
+theorem sys_pure_inval (cfg : SysCfg) (hs : SameKeys cfg)
+    (hl : cfg.inval .strToBitstore .lsb0 = true) (hm : cfg.inval .strToBitstore .mxfp = true)
+    (ops : List SysOp) : ∀ out ∈ (sysRun cfg (Sys.init cfg) ops).2, out.pure cfg = true := by
+  refine (sysRun_forall cfg (fun s => SysFresh s ∧ BindOK cfg s) (fun out => out.pure cfg = true) ?_ ops
+    (Sys.init cfg) ⟨?_, bindings_init cfg⟩).2
+  · intro s op ⟨hf, hb⟩
+    refine ⟨⟨?_, bindOK_step cfg hs s op hb⟩, ?_⟩
+    · -- freshness is preserved
+      cases op with
+      | call cid a =>
+        obtain ⟨_, h2, _, h4, h5⟩ := sysStep_call cfg s cid a
+        intro cid' e he
+        rw [h2]
+        by_cases hc : cid = cid'
+        · subst hc
+          rw [h4] at he
+          rcases cachedCall_mem he with he | ⟨v, hv, rfl⟩
+          · exact hf cid e he
+          · exact hv
+        · rw [h5 cid' hc] at he; exact hf cid' e he
+      | setOpt n v =>
+        obtain ⟨_, h2, _, h4, h5⟩ := sysStep_setOpt cfg s n v
+        intro cid e he
+        rw [h2]
+        rcases h4 cid with e' | e'
+        · rw [e'] at he; cases he
+        · rw [e'] at he
+          by_cases hc : cid = .strToBitstore
+          · subst hc
+            cases n with
+            | lsb0 => rw [h5 _ hl] at e'; rw [← e'] at he; cases he
+            | mxfp => rw [h5 _ hm] at e'; rw [← e'] at he; cases he
+            | bytealigned => rw [sem_str_bytealigned]; exact hf _ e he
+          · rw [sem_other_indep cid hc _ s.opts]; exact hf cid e he
+      | clear cid =>
+        intro cid' e he
+        by_cases hc : cid = cid'
+        · subst hc
+          have : (sysStep cfg s (.clear cid)).1.get cid = [] := get_put_same _ _ _
+          rw [this] at he; cases he
+        · have h1 : (sysStep cfg s (.clear cid)).1.get cid' = s.get cid' := get_put_ne _ _ _ _ hc
+          have h2 : (sysStep cfg s (.clear cid)).1.opts = s.opts := put_opts _ _ _
+          rw [h1] at he; rw [h2]; exact hf cid' e he
+      | useMethod k => exact hf
+      | other => exact hf
+    · -- the observation is pure
+      cases op with
+      | call cid a =>
+        rw [(sysStep_call cfg s cid a).1]
+        exact called_pure_of_fresh cfg s cid a (fun v hv => hf cid _ hv)
+      | setOpt n v => rw [(sysStep_setOpt cfg s n v).1]; rfl
+      | clear cid => rfl
+      | useMethod k =>
+        show decide (tableFind s.bindings k = tableLast (cfg.table s.opts.lsb0) k) = true
+        simp [hb k]
+      | other => rfl
+  · intro cid e he; cases cid <;> cases he
+
+/-! ### the code as pinned: outside the regions -/
+
+def STraced (past : List (Opts × CacheId × Call)) (s : Sys) : Prop :=
+  ∀ e ∈ s.get .strToBitstore, ∃ p ∈ past, p.2.1 = .strToBitstore ∧ p.2.2 = e.1 ∧
+    sem .strToBitstore p.1 e.1 = .ok e.2
+
+def SConsistent (t : List (Opts × CacheId × Call)) : Prop :=
+  ∀ p ∈ t, ∀ q ∈ t, p.2.1 = .strToBitstore → q.2.1 = .strToBitstore → p.2.2 = q.2.2 →
+    sem .strToBitstore p.1 p.2.2 = sem .strToBitstore q.1 q.2.2
+
+theorem sys_traced (cfg : SysCfg) (hs : SameKeys cfg) (ops : List SysOp) :
+    ∀ (s : Sys) (past : List (Opts × CacheId × Call)), SysComputed s → BindOK cfg s → STraced past s →
+      SConsistent (past ++ sysCallTrace s.opts ops) → ∀ out ∈ (sysRun cfg s ops).2, out.pure cfg = true := by
+  induction ops with
+  | nil => intro s past _ _ _ _ out ho; cases ho
+  | cons op ops ih =>
+    intro s past hc hb ht hcons out ho
+    simp only [sysRun, List.mem_cons] at ho
+    have hc' := sysComputed_step cfg s op hc
+    have hb' := bindOK_step cfg hs s op hb
+    cases op with
+    | call cid a =>
+      obtain ⟨h1, h2, _, h4, h5⟩ := sysStep_call cfg s cid a
+      have hcons' : SConsistent ((past ++ [(s.opts, cid, a)]) ++ sysCallTrace (sysStep cfg s (.call cid a)).1.opts ops) := by
+        rw [h2, List.append_assoc]; exact hcons
+      have ht' : STraced (past ++ [(s.opts, cid, a)]) (sysStep cfg s (.call cid a)).1 := by
+        intro e he
+        by_cases hcid : cid = .strToBitstore
+        · subst hcid
+          rw [h4] at he
+          rcases cachedCall_mem he with he | ⟨v, hv, rfl⟩
+          · obtain ⟨p, hp, q1, q2, q3⟩ := ht e he
+            exact ⟨p, List.mem_append_left _ hp, q1, q2, q3⟩
+          · exact ⟨(s.opts, .strToBitstore, a), by simp, rfl, rfl, hv⟩
+        · rw [h5 _ hcid] at he
+          obtain ⟨p, hp, q1, q2, q3⟩ := ht e he
+          exact ⟨p, List.mem_append_left _ hp, q1, q2, q3⟩
+      rcases ho with rfl | ho
+      · rw [h1]
+        apply called_pure_of_fresh
+        intro v hv
+        by_cases hcid : cid = .strToBitstore
+        · subst hcid
+          obtain ⟨p, hp, q1, q2, q3⟩ := ht _ hv
+          have := hcons p (List.mem_append_left _ hp) (s.opts, .strToBitstore, a)
+            (List.mem_append_right _ (by simp [sysCallTrace])) q1 rfl q2
+          simp only at this q2 q3
+          rw [← this, q2, q3]
+        · obtain ⟨o', ho'⟩ := hc cid _ hv
+          rw [sem_other_indep cid hcid s.opts o']; exact ho'
+      · exact ih _ _ hc' hb' ht' hcons' out ho
+    | setOpt n v =>
+      obtain ⟨h1, h2, _, h4, _⟩ := sysStep_setOpt cfg s n v
+      have hcons' : SConsistent (past ++ sysCallTrace (sysStep cfg s (.setOpt n v)).1.opts ops) := by
+        rw [h2]; exact hcons
+      have ht' : STraced past (sysStep cfg s (.setOpt n v)).1 := by
+        intro e he
+        rcases h4 .strToBitstore with e' | e'
+        · rw [e'] at he; cases he
+        · rw [e'] at he; exact ht e he
+      rcases ho with rfl | ho
+      · rw [h1]; rfl
+      · exact ih _ _ hc' hb' ht' hcons' out ho
+    | clear cid =>
+      have h2 : (sysStep cfg s (.clear cid)).1.opts = s.opts := put_opts _ _ _
+      have hcons' : SConsistent (past ++ sysCallTrace (sysStep cfg s (.clear cid)).1.opts ops) := by
+        rw [h2]; exact hcons
+      have ht' : STraced past (sysStep cfg s (.clear cid)).1 := by
+        intro e he
+        by_cases hcid : cid = .strToBitstore
+        · subst hcid
+          have : (sysStep cfg s (.clear .strToBitstore)).1.get .strToBitstore = [] :=
+            get_put_same s .strToBitstore []
+          rw [this] at he; cases he
+        · have : (sysStep cfg s (.clear cid)).1.get .strToBitstore = s.get .strToBitstore := get_put_ne _ _ _ _ hcid
+          rw [this] at he; exact ht e he
+      rcases ho with rfl | ho
+      · rfl
+      · exact ih _ _ hc' hb' ht' hcons' out ho
+    | useMethod k =>
+      rcases ho with rfl | ho
+      · show decide (tableFind s.bindings k = tableLast (cfg.table s.opts.lsb0) k) = true
+        simp [hb k]
+      · exact ih _ _ hc' hb' ht hcons out ho
+    | other =>
+      rcases ho with rfl | ho
+      · rfl
+      · exact ih _ _ hc' hb' ht hcons out ho
+
+theorem sem_eq_of_not_regions (p q : Opts × CacheId × Call) (hsame : p.2.2 = q.2.2)
+    (hL : (decide (p.2.2 = q.2.2) && p.2.2.readsLsb0 && !p.2.2.raises && (p.1.lsb0 != q.1.lsb0)) = false)
+    (hM : (decide (p.2.2 = q.2.2) && p.2.2.readsMxfp && !p.2.2.raises && (p.1.mxfpOverflow != q.1.mxfpOverflow)
+            && !(p.2.2.readsLsb0 && p.1.lsb0) && !(q.2.2.readsLsb0 && q.1.lsb0)) = false) :
+    sem .strToBitstore p.1 p.2.2 = sem .strToBitstore q.1 q.2.2 := by
+  obtain ⟨⟨l1, b1, m1⟩, pc, pa⟩ := p
+  obtain ⟨⟨l2, b2, m2⟩, qc, qa⟩ := q
+  simp only at hsame
+  subst hsame
+  obtain ⟨text, rl, rm, re⟩ := pa
+  simp only [decide_true, Bool.true_and] at hL hM
+  cases rl <;> cases rm <;> cases re <;> cases l1 <;> cases l2 <;> cases m1 <;> cases m2 <;>
+    simp_all [sem]
+
+theorem sconsistent_of_regions (ops : List SysOp)
+    (h₁ : reuse_after_lsb0_change ops = false) (h₂ : reuse_after_mxfp_overflow_change ops = false) :
+    SConsistent (sysCallTrace Opts.init ops) := by
+  intro p hp q hq hpc hqc hsame
+  have hp' : p ∈ strCalls ops := by
+    unfold strCalls; rw [List.mem_filter]; exact ⟨hp, by simp [hpc]⟩
+  have hq' : q ∈ strCalls ops := by
+    unfold strCalls; rw [List.mem_filter]; exact ⟨hq, by simp [hqc]⟩
+  apply sem_eq_of_not_regions p q hsame
+  · by_contra hne
+    have hne' := (Bool.not_eq_false _).1 hne
+    have : reuse_after_lsb0_change ops = true := by
+      unfold reuse_after_lsb0_change
+      simp only [List.any_eq_true]
+      exact ⟨p, hp', q, hq', hne'⟩
+    rw [this] at h₁; cases h₁
+  · by_contra hne
+    have hne' := (Bool.not_eq_false _).1 hne
+    have : reuse_after_mxfp_overflow_change ops = true := by
+      unfold reuse_after_mxfp_overflow_change
+      simp only [List.any_eq_true]
+      exact ⟨p, hp', q, hq', hne'⟩
+    rw [this] at h₂; cases h₂
+
+theorem sys_pure_partial (cfg : SysCfg) (hs : SameKeys cfg) (ops : List SysOp)
+    (h₁ : reuse_after_lsb0_change ops = false) (h₂ : reuse_after_mxfp_overflow_change ops = false) :
+    ∀ out ∈ (sysRun cfg (Sys.init cfg) ops).2, out.pure cfg = true :=
+  sys_traced cfg hs ops (Sys.init cfg) [] (sysComputed_init cfg) (bindings_init cfg)
+    (by intro e he; cases he) (by
+      have h := sconsistent_of_regions ops h₁ h₂
+      show SConsistent ([] ++ sysCallTrace Opts.init ops)
+      simpa using h)
+
+/-! ### `Dtype._create` -/
+
+theorem dtype_value_pure (cap : Nat) (ops : List (Op DtypeArg)) (a : DtypeArg) :
+    match (step (dtypeCfg cap) (run (dtypeCfg cap) St.init ops).1 (.call a)).2 with
+    | some (.ok d) => dtypeCreate Opts.init a = .ok a ∧ d.valueEq a
+    | some (.error e) => dtypeCreate Opts.init a = .error e
+    | none => False := by
+  have hcol : ∀ o o' a' v', (dtypeCfg cap).key a' = (dtypeCfg cap).key a → (dtypeCfg cap).f o' a' = .ok v' →
+      ∃ v, (dtypeCfg cap).f o a = .ok v ∧ (v = a ∧ v'.valueEq a) := by
+    intro o o' a' v' hk hv
+    simp only [dtypeCfg] at hk hv ⊢
+    have hv'a' : v' = a' := by
+      unfold dtypeCreate at hv
+      split at hv
+      · split at hv
+        · cases hv
+        · cases hv; rfl
+      · cases hv; rfl
+    subst hv'a'
+    refine ⟨a, ?_, rfl, hk⟩
+    unfold dtypeCreate at hv ⊢
+    obtain ⟨n1, l1, s1⟩ := v'
+    obtain ⟨n2, l2, s2⟩ := a
+    simp only [DtypeArg.key, Prod.mk.injEq] at hk
+    obtain ⟨_, _, hsc⟩ := hk
+    cases s1 with
+    | none => cases s2 with
+      | none => rfl
+      | some y => simp at hsc
+    | some x => cases s2 with
+      | none => simp at hsc
+      | some y =>
+        simp only [Option.map_some, Option.some.injEq, Prod.mk.injEq] at hsc
+        simp only at hv ⊢
+        split at hv
+        · cases hv
+        · rename_i hx
+          rw [if_neg (by rw [← hsc.1]; exact hx)]
+  have := correct_upto (dtypeCfg cap) (fun v v' => v = a ∧ v'.valueEq a) a hcol
+    (run (dtypeCfg cap) St.init ops).1 (computed_run (dtypeCfg cap) ops St.init (by intro e he; cases he))
+  revert this
+  cases (step (dtypeCfg cap) (run (dtypeCfg cap) St.init ops).1 (.call a)).2 with
+  | none => exact id
+  | some r =>
+    cases r with
+    | error e => exact id
+    | ok d =>
+      rintro ⟨v, hv, rfl, hd⟩
+      exact ⟨hv, hd⟩
+
 end BM.C09
